@@ -4,6 +4,7 @@
 -/
 import FerretVerif.Model.Num
 import FerretVerif.Drv.Limbs
+import FerretVerif.Drv.Literal
 
 open FerretVerif
 
@@ -37,4 +38,5 @@ def main (args : List String) : IO UInt32 := do
   match args with
   | ["lossless"] => eachLine cmdLossless; return 0
   | ["limbs"] => eachLine cmdLimbs; return 0
+  | ["literal"] => eachLine cmdLiteral; return 0
   | _ => IO.eprintln s!"fvdriver: unknown subcommand {args}"; return 2
